@@ -172,13 +172,17 @@ def _hex_generator(repo):
                 'seg = 1\nfor ring in range(1, rings + 1):\n    for h in hex_ring(ring):\n        r, c = hex_to_rc(h, seg_radius + seg_gap / 2, rotate)\n'
                 '        if seg not in drop:\n            mask.append(lentil.hexagon(shape, seg_radius, shift=(r, c), antialias=antialias, rotate=rotate))\n        seg += 1',
                 params + ['mask', 'shape'], 'hex_segments numbering loop')
+    # array size: structurally the formula the model's `hexSegmentsSize` evaluates
+    sz = [x for x in body if isinstance(x, ast.Assign) and ast.unparse(x.targets[0]) in ('size', 'inner_radius')]
+    _same_shape(sz, 'inner_radius = seg_radius * np.sqrt(3) / 2\nsize = np.ceil((rings * 2 + 1) * inner_radius * 2 + rings * 2 * seg_gap + pad * 2).astype(int)',
+                params, 'hex_segments array size')
     lean = ('/-- `segmented.hex_directions` -/\n'
             'def hexDirections : List (Int × Int × Int) :=\n  [' + ', '.join(f'({a}, {b}, {c})' for a, b, c in table) + ']\n\n'
             '/-- start cell of `segmented.hex_ring(radius)` -/\n'
             f'def hexRingStart (radius : Int) : Int × Int × Int := ({start})\n\n'
             '/-- `segmented.hex_add` -/\n'
             'def hexAdd (a b : Int × Int × Int) : Int × Int × Int := (a.1 + b.1, a.2.1 + b.2.1, a.2.2 + b.2.2)\n')
-    return lean, ['hex_ring loop, hex_neighbor/hex_direction/hex_add bodies and the hex_segments numbering loop matched against templates']
+    return lean, ['hex_ring loop, hex_neighbor/hex_direction/hex_add bodies, the hex_segments numbering loop and array-size formula matched structurally (alpha-renamed AST)']
 
 MODULES = [
     {'name': 'Util', 'src': 'lentil/util.py', 'sigs': UTIL, 'props': ['C20', 'C09']},
